@@ -525,6 +525,53 @@ pub fn c16_case(env: &mut Env, rep: &mut Report, case_seed: u64, cfg: &C16Cfg) {
         }
         std::thread::sleep(std::time::Duration::from_millis(2));
     }
+    // a sibling problem of the same user: its tasks must never show up in this problem's running_tasks
+    if !negative && rng.chance(1, 2) {
+        let sibling = format!("sibling {}", rng.below(100000));
+        let scase = web_case(&mut rng, 3, true);
+        if let Ok(r) = add_problem(&mut s, &sibling, &scase.text, "Naive") {
+            if r.status == 200 {
+                rep.count("sibling_problems", 1);
+                let mut sibling_solved = false;
+                for k in 0..60 {
+                    let Ok(r) = s.get(&path) else { break };
+                    let Some(body) = r.json() else { break };
+                    match check_body(rep, &case, &body, false, &dups) {
+                        Ok(obs) => {
+                            if !obs.running.is_empty() && obs.running.iter().any(|t| !dups.contains(t)) {
+                                rep.violation(
+                                    "task-of-another-problem-reported",
+                                    format!("all results of the problem are stored, yet it lists {:?} while a sibling problem of the same user is busy", obs.running),
+                                    replay,
+                                );
+                                return;
+                            }
+                        }
+                        Err((sig, msg)) => {
+                            rep.violation(&sig, format!("(while a sibling problem is busy) {}", msg), replay);
+                            return;
+                        }
+                    }
+                    rep.count("gets_while_sibling_busy", 1);
+                    // once the sibling is parsed, keep it busy with solves
+                    if let Ok(sr) = s.get(&format!("/adf/{}", enc(&sibling))) {
+                        if let Some(sb) = sr.json() {
+                            let parsed = sb["acs_per_strategy"]["parse_only"]["type"] == "Some";
+                            let idle = sb["running_tasks"].as_array().map(|a| a.is_empty()).unwrap_or(true);
+                            if parsed && idle {
+                                if sibling_solved && k > 20 {
+                                    break;
+                                }
+                                let _ = solve(&mut s, &sibling, STRATEGIES[k % 6]);
+                                sibling_solved = true;
+                            }
+                        }
+                    }
+                    std::thread::sleep(std::time::Duration::from_millis(2));
+                }
+            }
+        }
+    }
     rep.max("max_polls", polls);
     if cfg.delayed {
         if saw_running {
